@@ -11,7 +11,7 @@ From Coq Require Import ZArith List Bool Sorted.
 From Low Require Import Lib.Bits Lib.BitSeq Model.BuilderOps Model.BitmapOf Spec.OfSpec
   Proofs.OfProofs Proofs.OfInspect Proofs.OfRoundTrip Proofs.BuilderProofs
   Model.BitmapMask12 Spec.MaskSpec12 Proofs.MaskProofs Model.BitmapFmt12 Spec.FmtSpec12 Proofs.FmtProofs12
-  Model.Rank Model.BitmapNext Spec.OfQuerySpec Proofs.OfCompose Proofs.OfTotal Proofs.BuilderLen Model.BitmapOf32 Proofs.Of32 Proofs.BuilderEqOf.
+  Model.Rank Model.BitmapNext Spec.OfQuerySpec Proofs.OfCompose Proofs.OfTotal Proofs.BuilderLen Model.BitmapOf32 Proofs.Of32 Proofs.BuilderEqOf Proofs.BuilderOfManySet.
 Import ListNotations.
 Open Scope Z_scope.
 
@@ -377,6 +377,26 @@ Theorem C12_OfMany_total : forall subs sizes, length subs = length sizes ->
 Proof. exact OfMany_total. Qed.
 Print Assumptions C12_OfMany_total.
 
+(** * OfMany on its WHOLE non-panic domain, positions at or past a segment's size in ANY segment included *)
+(** [ofmany_dom2]: sizes >= 0, every segment ascending and non-negative, and every shifted position inside the bits
+    the real code allocates from the sum of the sizes and the last shifted position (exactly the inputs on which it
+    does not panic, C12_OfMany_total).  The shifted concatenation need not be ascending; since the code ORs bits,
+    the result has exactly the SET of shifted positions and ceil(max(sum, last+1, 0)/64) words *)
+Theorem C12_OfMany_nonpanic : forall subs sizes, ofmany_dom2 subs sizes = true ->
+  exists r, OfMany subs sizes = Some r /\ spec_OfMany subs sizes r.
+Proof. exact OfMany_nonpanic. Qed.
+Print Assumptions C12_OfMany_nonpanic.
+
+(** ... which is what a Builder fed the same segments holds: same 1-bits, equal after removing trailing zero
+    words, Offset = the sum of the sizes *)
+Theorem C12_Builder_OfMany_set : forall n subs sizes,
+  0 <= n -> ofmany_dom2 subs sizes = true ->
+  exists b0 b r, NewBuilder n = Some b0 /\ bfold b0 (extends subs sizes) = Some b /\
+    OfMany subs sizes = Some r /\ spec_OfMany subs sizes r /\
+    ones (flat (Words b)) = ones (flat r) /\ strip0 (Words b) = strip0 r /\ Offset b = total sizes.
+Proof. exact Builder_Extend_OfMany_set. Qed.
+Print Assumptions C12_Builder_OfMany_set.
+
 (** * non-vacuity *)
 (** Of: positions at 63/64/65 and a gap of more than 3 words, n smaller than last+1 *)
 Example C12_Of_nonvacuous :
@@ -485,4 +505,13 @@ Example C12_int32_nonvacuous :
   Of32 [] (Some (2^31 - 1)) = None /\
   hist_bounded abs0 [BExtend [1; 70] 3; BSet 200 (-1); BExtend [0] (2^31 - 300)] /\
   ~ hist_bounded abs0 [BExtend [1; 70] 3; BSet 200 (-1); BExtend [0] (2^31 - 201)].
+Proof. vm_compute. intuition congruence. Qed.
+
+(** OfMany with an overhang that a later segment revisits: {0,70} size 1, then {1} size 100: shifted list 0,70,2 is
+    not ascending, word 0 is revisited, bit 0 must survive *)
+Example C12_OfMany_nonpanic_nonvacuous :
+  ofmany_dom2 [[0; 70]; [1]] [1; 100] = true /\ ofmany_dom [[0; 70]; [1]] [1; 100] = false /\
+  shifted [[0; 70]; [1]] [1; 100] 0 = [0; 70; 2] /\
+  OfMany [[0; 70]; [1]] [1; 100] = Some [5; 64] /\
+  ofmany_dom2 [[0; 200]; [1]] [4; 60] = false.
 Proof. vm_compute. intuition congruence. Qed.
